@@ -32,6 +32,10 @@ type conflictCase struct {
 	CKinds []string `json:"c_replies"` // per user: ok | partial | transport | node-null
 	CLate  []bool   `json:"c_after_b"` // per user: the dependent call answers only after B has
 	Stall  int      `json:"collector_stall_ms,omitempty"`
+	// a second dependent step at the same insertion point that delivers the same response key as the
+	// first (profile), with another field below it: the two replies merge, whichever arrives last
+	TwoDeps bool `json:"two_dependents_one_key,omitempty"`
+	DFirst  bool `json:"second_dependent_answers_first,omitempty"`
 }
 
 type cfQueryer struct {
@@ -90,6 +94,16 @@ func (q *cfQueryer) Query(ctx context.Context, in *graphql.QueryInput, recv inte
 		}
 		return nil
 	}
+	if q.role == "D" {
+		id := fmt.Sprint(in.Variables["id"])
+		if q.cc.DFirst {
+			time.Sleep(1 * time.Millisecond)
+		} else {
+			time.Sleep(60 * time.Millisecond)
+		}
+		*out = map[string]interface{}{"node": map[string]interface{}{"id": id, "profile": map[string]interface{}{"avatar": "avatar of " + id}}}
+		return nil
+	}
 	// C: one call per user
 	id := fmt.Sprint(in.Variables["id"])
 	i := 0
@@ -110,7 +124,11 @@ func (q *cfQueryer) Query(ctx context.Context, in *graphql.QueryInput, recv inte
 		*out = map[string]interface{}{"node": nil}
 		return graphql.ErrorList{&graphql.Error{Message: fmt.Sprintf("no user %d at C", i)}}
 	}
-	*out = map[string]interface{}{"node": map[string]interface{}{"id": id, "name": "name of " + id}}
+	node := map[string]interface{}{"id": id, "name": "name of " + id}
+	if q.cc.TwoDeps {
+		node["profile"] = map[string]interface{}{"bio": "bio of " + id}
+	}
+	*out = map[string]interface{}{"node": node}
 	if kind == "partial" {
 		return graphql.ErrorList{&graphql.Error{Message: fmt.Sprintf("service C failed for user %d", i)}}
 	}
@@ -128,8 +146,21 @@ func runConflictOnce(cc *conflictCase) xObs {
 	stepC := &gateway.QueryPlanStep{Queryer: &cfQueryer{x: x, role: "C", cc: cc}, ParentType: "User", InsertionPoint: []string{"users"},
 		SelectionSet: ast.SelectionSet{&ast.Field{Name: "name", Alias: "name", Definition: &ast.FieldDefinition{Name: "name", Type: ast.NamedType("String", &ast.Position{})}}},
 		Variables:    gateway.Set{}}
+	deps := []*gateway.QueryPlanStep{stepC}
+	if cc.TwoDeps {
+		leaf := func(n string) *ast.Field {
+			return &ast.Field{Name: n, Alias: n, Definition: &ast.FieldDefinition{Name: n, Type: ast.NamedType("String", &ast.Position{})}}
+		}
+		profile := func(sub string) *ast.Field {
+			return &ast.Field{Name: "profile", Alias: "profile", Definition: &ast.FieldDefinition{Name: "profile", Type: ast.NamedType("Profile", &ast.Position{})},
+				SelectionSet: ast.SelectionSet{leaf(sub)}}
+		}
+		stepC.SelectionSet = append(stepC.SelectionSet, profile("bio"))
+		deps = append(deps, &gateway.QueryPlanStep{Queryer: &cfQueryer{x: x, role: "D", cc: cc}, ParentType: "User", InsertionPoint: []string{"users"},
+			SelectionSet: ast.SelectionSet{profile("avatar")}, Variables: gateway.Set{}})
+	}
 	stepA := &gateway.QueryPlanStep{Queryer: &cfQueryer{x: x, role: "A", cc: cc}, ParentType: "Query", InsertionPoint: []string{},
-		SelectionSet: ast.SelectionSet{usersField()}, Variables: gateway.Set{}, Then: []*gateway.QueryPlanStep{stepC}}
+		SelectionSet: ast.SelectionSet{usersField()}, Variables: gateway.Set{}, Then: deps}
 	stepB := &gateway.QueryPlanStep{Queryer: &cfQueryer{x: x, role: "B", cc: cc}, ParentType: "Query", InsertionPoint: []string{},
 		SelectionSet: ast.SelectionSet{usersField()}, Variables: gateway.Set{}}
 	plan := &gateway.QueryPlan{Operation: &ast.OperationDefinition{Name: "X"}, RootStep: &gateway.QueryPlanStep{Then: []*gateway.QueryPlanStep{stepA, stepB}}}
@@ -202,6 +233,10 @@ func genConflict(r *rand.Rand) *conflictCase {
 	if r.Intn(4) == 0 {
 		cc.Stall = 30
 	}
+	if r.Intn(3) == 0 {
+		cc.TwoDeps, cc.DFirst = true, r.Intn(2) == 0
+		cc.BReply, cc.BErr = "objects", false
+	}
 	return cc
 }
 
@@ -226,6 +261,13 @@ func conflictCases(cfg *runCfg, r *rand.Rand, sh *Sharder, doc *CasesDoc, id *in
 				u := map[string]interface{}{"id": fmt.Sprintf("u%d", i)}
 				if cc.CKinds[i] == "ok" || cc.CKinds[i] == "partial" {
 					u["name"] = fmt.Sprintf("name of u%d", i)
+				}
+				if cc.TwoDeps {
+					p := map[string]interface{}{"avatar": fmt.Sprintf("avatar of u%d", i)}
+					if cc.CKinds[i] == "ok" || cc.CKinds[i] == "partial" {
+						p["bio"] = fmt.Sprintf("bio of u%d", i)
+					}
+					u["profile"] = p
 				}
 				users = append(users, u)
 			}
